@@ -2,8 +2,8 @@ package main
 
 import (
 	"fmt"
-	"os"
 	"math/big"
+	"os"
 	"strings"
 
 	"github.com/nspcc-dev/neo-go/pkg/core/native/noderoles"
@@ -30,6 +30,9 @@ type txSpec struct {
 	// notary-assisted transaction: sender = Notary contract, signers[0] is the payer
 	notary bool
 	nkeys  uint8
+	// attr: an ordinary sender (signers[0]) with the NotaryAssisted attribute and the Notary contract as
+	// an additional signer (the shape of a completed main transaction of the notary service)
+	attr bool
 	// exhaust: 1 = SystemFee chosen so that SystemFee+NetworkFee equals the payer's deposit exactly,
 	// 2 = one datoshi less than the deposit, 0 = sysFee as given
 	exhaust int
@@ -44,6 +47,9 @@ func (w *world) buildTx(s *txSpec) *transaction.Transaction {
 	}
 	if s.notary {
 		return w.buildNotaryTx(s, script)
+	}
+	if s.attr {
+		return w.buildAttrTx(s, script)
 	}
 	uniq := s.signers[:0:0]
 	for _, h := range s.signers {
@@ -98,6 +104,29 @@ func (w *world) buildNotaryTx(s *txSpec, script []byte) *transaction.Transaction
 	tx.Scripts = []transaction.Witness{
 		{InvocationScript: append([]byte{byte(opcode.PUSHDATA1), keys.SignatureLen}, w.notaryKey.SignHashable(magic, tx)...)},
 		{InvocationScript: payer.SignHashable(magic, tx), VerificationScript: payer.Script()},
+	}
+	return tx
+}
+
+// buildAttrTx: Signers = [sender (Global), Notary (None)], NotaryAssisted attribute; nothing is charged to a
+// deposit, but the notary nodes are rewarded and the primary's reward is reduced accordingly.
+func (w *world) buildAttrTx(s *txSpec, script []byte) *transaction.Transaction {
+	sender := w.signer[s.signers[0]]
+	tx := transaction.New(script, s.sysFee)
+	w.nonce++
+	tx.Nonce = w.nonce
+	tx.ValidUntilBlock = w.bc.BlockHeight() + 1
+	tx.Attributes = []transaction.Attribute{{Type: transaction.NotaryAssistedT, Value: &transaction.NotaryAssisted{NKeys: s.nkeys}}}
+	tx.Signers = []transaction.Signer{
+		{Account: sender.ScriptHash(), Scopes: transaction.Global},
+		{Account: w.notaryH, Scopes: transaction.None},
+	}
+	neotest.AddNetworkFee(w.t, w.bc, tx, sender)
+	tx.NetworkFee += 5_000_000
+	magic := uint32(w.bc.GetConfig().Magic)
+	tx.Scripts = []transaction.Witness{
+		{InvocationScript: sender.SignHashable(magic, tx), VerificationScript: sender.Script()},
+		{InvocationScript: append([]byte{byte(opcode.PUSHDATA1), keys.SignatureLen}, w.notaryKey.SignHashable(magic, tx)...)},
 	}
 	return tx
 }
@@ -176,9 +205,30 @@ func (w *world) runBlock(o *hx.Out, k int, specs []*txSpec) bool {
 		txs[i] = w.buildTx(s)
 	}
 	primary := byte(w.r.Intn(w.V))
-	b, err := w.addBlock(primary, txs...)
+	b, err, pnc := w.addBlockSafe(primary, txs...)
+	if pnc != nil {
+		// the real block processing panicked: an observation the model does not share
+		o.Count("block:panic")
+		o.Line(fmt.Sprintf("block %d", w.bc.BlockHeight()+1), fmt.Sprintf("panic"))
+		if os.Getenv("TOKENS_DEBUG") != "" {
+			fmt.Fprintf(os.Stderr, "case %d: AddBlock panicked: %v\n", k, pnc)
+		}
+		panic(failNow{"AddBlock panicked"})
+	}
 	if err != nil {
 		// the generator built an invalid block: harness problem, not a finding
+		if strings.Contains(err.Error(), "onPersist failed") || strings.Contains(err.Error(), "postPersist failed") {
+			// OnPersist / PostPersist of the natives failed on a block of verified transactions:
+			// the model's onpersist / postpersist answer `ok` here unless it panics too.
+			o.Count("block:persist-failed")
+			op := "onpersist 0 - 0"
+			if strings.Contains(err.Error(), "postPersist failed") {
+				op = "postpersist -"
+			}
+			o.Line(fmt.Sprintf("block %d", w.bc.BlockHeight()+1), "ok")
+			o.Line(op, "panic")
+			panic(failNow{"block processing failed: " + err.Error()})
+		}
 		o.Count("block:rejected")
 		if os.Getenv("TOKENS_DEBUG") != "" {
 			for i, tx := range txs {
@@ -208,6 +258,8 @@ func (w *world) runBlock(o *hx.Out, k int, specs []*txSpec) bool {
 		if specs[i].notary {
 			nk = fmt.Sprint(specs[i].nkeys)
 			payer = fmt.Sprint(w.aid(tx.Signers[1].Account))
+		} else if specs[i].attr {
+			nk = fmt.Sprint(specs[i].nkeys)
 		}
 		fmt.Fprintf(&sb, " %d %d %d %s %s", w.aid(tx.Sender()), tx.SystemFee, tx.NetworkFee, nk, payer)
 	}
@@ -228,6 +280,8 @@ func (w *world) runBlock(o *hx.Out, k int, specs []*txSpec) bool {
 		signed := map[util.Uint160]bool{}
 		if s.notary {
 			signed[tx.Signers[1].Account] = true
+		} else if s.attr {
+			signed[tx.Signers[0].Account] = true
 		} else {
 			for _, sg := range tx.Signers {
 				signed[sg.Account] = true
